@@ -36,7 +36,11 @@ CHECKS = {
             "", "DESIGN.md 5/C13"),
     "C14": (TV, "Lean model + correspondence (proofs in progress)", CORR, "", "DESIGN.md 5/C14"),
     "C15": (TV, "Lean model + correspondence (proofs in progress)", CORR, "", "DESIGN.md 5/C15"),
-    "C16": (TV, "Lean model + correspondence (proofs in progress)", CORR, "", "DESIGN.md 5/C16"),
+    "C16": (PR, "Lean 4 theorems over the Diagnostics.run model (diag_sound, diag_exact) + regenerated flag table + correspondence",
+            "Machine-checked: if Diagnostics.run reports doomed, the reference semantics of the tree is empty (without "
+            "executor: unconditionally; with executor: for any executor that never under-counts... see Props/C16.lean), "
+            "a doomed report always carries a message, and with a truthful executor the report is exact. " + CORR,
+            "", "DESIGN.md 5/C16"),
     "C17": (TV, "Lean model + correspondence (proofs in progress)", CORR, "", "DESIGN.md 5/C17"),
     "C18": (TV, "Lean model + correspondence (proofs in progress)", CORR, "", "DESIGN.md 5/C18"),
     "C19": (PR, "Lean 4 theorem (names_distinct) + regenerated name format + real/forced thread races",
